@@ -853,6 +853,8 @@ def backward_slice(body, roots, max_nodes=4000, through_calls=True):
                 if k in ('use', 'repeat', 'cast', 'bin', 'un', 'agg'):
                     if k == 'bin':
                         sl.binops.add(r['op'])
+                    if k == 'agg' and str(r.get('ak', '')).startswith('Closure:'):
+                        sl.calls.add(r['ak'][8:])      # a closure built in the slice: its body may decide the value
                     for a in r['a']:
                         push_op(a)
                 elif k in ('ref', 'rawptr', 'discr', 'copyderef'):
